@@ -127,6 +127,8 @@ fn report(p: &str, tier: Tier, seed: u64, reports: &[UnitReport], meta: &props::
         for i in &r.inconclusive { inconclusive.push(format!("{}: solver could not decide: {}", r.id, i)); }
         for i in &r.unconfirmed { inconclusive.push(format!("{}: {}", r.id, i)); }
         for i in &r.aborted { inconclusive.push(format!("{}: path abandoned: {}", r.id, i)); }
+        // vacuity guard: a unit none of whose paths reached an obligation (all pruned by assumptions, or cut by the budget before the first one) decides nothing
+        if r.obligations == 0 && r.findings.is_empty() && !r.capped { inconclusive.push(format!("{}: vacuous — no path reached an obligation ({} paths, {} pruned by assumptions)", r.id, r.paths, r.paths_pruned)); }
     }
     let exhaustive = reports.iter().all(|r| !r.capped && !r.stopped_on_violation && r.aborted.is_empty());
     let mut samples: Vec<J> = vec![];
